@@ -2,9 +2,11 @@
 package solver
 
 import (
+	"bufio"
 	"bytes"
 	"context"
 	"fmt"
+	"io"
 	"os"
 	"os/exec"
 	"regexp"
@@ -173,12 +175,133 @@ func runFileCtx(parent context.Context, be Backend, file string, timeoutS int) R
 // ignores the soft timeout), so each call is a one-shot process with a hard 2 s limit;
 // anything but a clean "unsat" counts as feasible.
 type Session struct {
-	mu    sync.Mutex
-	dir   string
-	n     int
-	Calls int
-	Secs  float64
-	Limit int
+	mu     sync.Mutex
+	dir    string
+	n      int
+	Calls  int
+	Hits   int // answered from the model cache
+	Secs   float64
+	Limit  int
+	models []map[string]uint64
+	// Incremental: use one long-lived z3 process (only sensible for the simple path
+	// conditions of fork mode); falls back to one-shot runs when it does not answer.
+	Incremental bool
+	inc         *incProc
+	IncCalls    int
+}
+
+type incProc struct {
+	cmd  *exec.Cmd
+	in   io.WriteCloser
+	out  *bufio.Reader
+	p    *term.Printer
+	buf  *bytes.Buffer
+	dead bool
+}
+
+func startInc() *incProc {
+	cmd := exec.Command("z3-new", "-in", "-smt2")
+	in, err := cmd.StdinPipe()
+	if err != nil {
+		return nil
+	}
+	outp, err := cmd.StdoutPipe()
+	if err != nil {
+		return nil
+	}
+	if err := cmd.Start(); err != nil {
+		return nil
+	}
+	ip := &incProc{cmd: cmd, in: in, out: bufio.NewReader(outp), buf: &bytes.Buffer{}}
+	ip.p = term.NewPrinter(ip.buf)
+	io.WriteString(in, "(set-option :produce-models true)\n(set-option :timeout 1500)\n(set-logic QF_BV)\n")
+	return ip
+}
+
+// readSexp reads one line, or a balanced parenthesised expression spanning lines.
+func (ip *incProc) readSexp() (string, error) {
+	var b strings.Builder
+	depth := 0
+	for {
+		line, err := ip.out.ReadString('\n')
+		if err != nil {
+			return b.String(), err
+		}
+		b.WriteString(line)
+		inBar := false
+		for _, ch := range line {
+			switch {
+			case ch == '|':
+				inBar = !inBar
+			case inBar:
+			case ch == '(':
+				depth++
+			case ch == ')':
+				depth--
+			}
+		}
+		if depth <= 0 {
+			return b.String(), nil
+		}
+	}
+}
+
+func (ip *incProc) check(ts []*term.Term) (string, map[string]uint64) {
+	refs := make([]string, len(ts))
+	for i, t := range ts {
+		refs[i] = ip.p.Define(t)
+	}
+	ip.p.Raw("(push 1)\n")
+	for _, r := range refs {
+		ip.p.Raw("(assert " + r + ")\n")
+	}
+	ip.p.Raw("(check-sat)\n")
+	ip.p.Flush()
+	if _, err := ip.in.Write(ip.buf.Bytes()); err != nil {
+		ip.dead = true
+		return "unknown", nil
+	}
+	ip.buf.Reset()
+	line, err := ip.readSexp()
+	if err != nil {
+		ip.dead = true
+		return "unknown", nil
+	}
+	st := strings.TrimSpace(line)
+	var model map[string]uint64
+	if st == "sat" {
+		names := ip.p.VarNames()
+		if len(names) > 0 {
+			var q strings.Builder
+			q.WriteString("(get-value (")
+			for _, n := range names {
+				q.WriteString(term.SymName(n) + " ")
+			}
+			q.WriteString("))\n")
+			if _, err := io.WriteString(ip.in, q.String()); err != nil {
+				ip.dead = true
+				return "unknown", nil
+			}
+			vals, err := ip.readSexp()
+			if err != nil {
+				ip.dead = true
+				return "unknown", nil
+			}
+			model = parseModel(vals)
+		} else {
+			model = map[string]uint64{}
+		}
+	}
+	if _, err := io.WriteString(ip.in, "(pop 1)\n"); err != nil {
+		ip.dead = true
+	}
+	if st != "sat" && st != "unsat" {
+		if strings.HasPrefix(st, "(error") {
+			ip.dead = true
+		}
+		return "unknown", nil
+	}
+	return st, model
 }
 
 func NewSession() (*Session, error) {
@@ -201,13 +324,70 @@ func NewSessionMust() *Session {
 func (s *Session) Feasible(ts ...*term.Term) string {
 	s.mu.Lock()
 	defer s.mu.Unlock()
+	// counterexample cache: a model of an earlier query often satisfies this one
+	for i := len(s.models) - 1; i >= 0; i-- {
+		memo := map[*term.Term]uint64{}
+		ok := true
+		for _, t := range ts {
+			if term.Eval(t, s.models[i], memo) == 0 {
+				ok = false
+				break
+			}
+		}
+		if ok {
+			s.Hits++
+			if i != len(s.models)-1 { // move to front
+				m := s.models[i]
+				copy(s.models[i:], s.models[i+1:])
+				s.models[len(s.models)-1] = m
+			}
+			return "sat"
+		}
+	}
+	if s.Incremental {
+		if s.inc == nil {
+			s.inc = startInc()
+		}
+		if s.inc != nil && !s.inc.dead {
+			t0 := time.Now()
+			st, model := s.inc.check(ts)
+			s.IncCalls++
+			s.Secs += time.Since(t0).Seconds()
+			if st == "sat" {
+				if model != nil {
+					s.models = append(s.models, model)
+					if len(s.models) > 48 {
+						s.models = s.models[1:]
+					}
+				}
+				return "sat"
+			}
+			if st == "unsat" {
+				return "unsat"
+			}
+			if s.inc.dead {
+				s.inc.in.Close()
+				s.inc.cmd.Process.Kill()
+				s.inc.cmd.Wait()
+				s.inc = nil
+			}
+		}
+	}
 	s.n++
-	r := Check(Z3New, s.dir, fmt.Sprintf("f%d", s.n%4), ts, s.Limit, false)
+	r := checkWithModel(Z3New, s.dir, fmt.Sprintf("f%d", s.n%4), ts, s.Limit)
 	s.Calls++
 	s.Secs += r.Seconds
 	switch r.Status {
-	case "sat", "unsat":
-		return r.Status
+	case "sat":
+		if r.Model != nil {
+			s.models = append(s.models, r.Model)
+			if len(s.models) > 48 {
+				s.models = s.models[1:]
+			}
+		}
+		return "sat"
+	case "unsat":
+		return "unsat"
 	}
 	return "unknown"
 }
@@ -216,5 +396,30 @@ func (s *Session) Close() {
 	if s == nil {
 		return
 	}
+	if s.inc != nil {
+		s.inc.in.Close()
+		s.inc.cmd.Process.Kill()
+		s.inc.cmd.Wait()
+	}
 	os.RemoveAll(s.dir)
+}
+
+// checkWithModel is a single run that asks for the model right away; the error line a solver
+// prints for get-value after "unsat" is expected and ignored (only here, for feasibility).
+func checkWithModel(be Backend, dir, name string, asserts []*term.Term, timeoutS int) Result {
+	file := fmt.Sprintf("%s/%s.smt2", dir, name)
+	f, err := os.Create(file)
+	if err != nil {
+		return Result{Status: "error", Raw: err.Error(), Solver: be.Name}
+	}
+	term.WriteQuery(f, "QF_BV", asserts, true)
+	f.Close()
+	r := RunFile(be, file, timeoutS)
+	if r.Status == "error" {
+		first := strings.TrimSpace(strings.SplitN(r.Raw, "\n", 2)[0])
+		if first == "unsat" && strings.Count(r.Raw, "(error") == 1 {
+			r.Status = "unsat"
+		}
+	}
+	return r
 }
